@@ -17,7 +17,10 @@ def main(tier):
     # model those theorems talk about
     c.phase_proofs("ParserShape")
     from checks import layerc
-    layerc.blocks(c, tier, 0.2 if tier == "quick" else 0.1)
+    layerc.blocks(c, tier, 0.12 if tier == "quick" else 0.1)   # the whole-parser tie below runs the block phase too
+    # Parse_C10 / Parse_html_total (Props/Parse.v): the events of the HTML model are well nested on the tree that ONE Coq
+    # function of the input bytes returns (Model/Parse.v parse_document_model), tied end to end to parse_document here
+    layerc.whole(c, tier, 0.12 if tier == "quick" else 0.15)
     n = 3000 if tier == "quick" else 30000
     recs = htmlfam.tie_html(c, n, 400 if tier == "quick" else 4000)
     if recs is None:
@@ -82,7 +85,7 @@ def main(tier):
     c.cov["spec_checks"]["html_balanced_check(real html) = 0 where raw HTML is not passed through"] = len(live)
     c.cov["spec_checks"]["S2, S3, S6w on dumped parser trees"] = len(ok)
     c.cov["partial_clauses"] = ["the byte-level statement (lexer round trip) is evaluated on the real output, not proved",
-                                "S2/S3/S6w are theorems about the parser models (Props/ParserShape.v: block phase, inline phase, footnote pass and their composition final_tree); that finalize_document + postprocess_text_nodes of the compiled parser is that composition is not modelled as one function, so the clauses stay evaluated on every dumped tree"]
+                                "S2/S3/S6w are theorems about the parser: Props/Parse.v Parse_shape / Parse_C10 / Parse_html_total state them of every tree that Model/Parse.v parse_document_model (block phase + process_inlines + process_footnotes + postprocess_text_nodes as ONE function of the input bytes) returns, and that function is tied end to end to the compiled parse_document (correspondence parser.whole: equal trees with positions); what remains outside Coq: totality of the parser model (statements are about runs that return Ok) and the Unicode oracles; the clauses are still evaluated on every dumped tree"]
     c.assumptions = ["no plugins (heading adapter, syntax highlighter) — they write arbitrary bytes"]
     c.finish(rule="distinct by (options, document); non-trivial = the dumped tree has more than four nodes",
              trusted_base=htmlfam.TRUSTED)
